@@ -46,3 +46,43 @@ func VerifCheckSequence(initial AuthEventProvider, steps []VerifSeqStep, prepare
 	}
 	return out
 }
+
+// VerifAuthAndApply runs the REAL stateResolverV2.authAndApplyEvents loop: a resolver is set up
+// the way ResolveStateConflictsV2 sets it up, `partial` is applied as the partial state known so
+// far (applyEvents, no checks), then `events` go through authAndApplyEvents in one call. The
+// partial state afterwards is returned (every resolved slot), so that the caller can compare it
+// with the state obtained by checking each event on its own with Allowed.
+func VerifAuthAndApply(partial, authEvents, events []PDU, q spec.UserIDForSender, roomID spec.RoomID, isRejected IsRejected) []PDU {
+	authProvider, _ := NewAuthEvents(nil)
+	r := stateResolverV2{
+		authEventMap:              eventMapFromEvents(authEvents),
+		authProvider:              authProvider,
+		conflictedEventMap:        eventMapFromEvents(events),
+		powerLevelContents:        make(map[string]*PowerLevelContent),
+		powerLevelMainlinePos:     make(map[string]int),
+		resolvedThirdPartyInvites: make(map[string]PDU),
+		resolvedMembers:           make(map[spec.SenderID]PDU),
+		resolvedOthers:            make(map[StateKeyTuple]PDU),
+		isRejectedFn:              isRejected,
+		isRejectedCache:           make(map[string]bool),
+	}
+	r.allower = newAllowerContext(r.authProvider, q, roomID)
+	r.applyEvents(partial...)
+	r.authAndApplyEvents(events...)
+	var out []PDU
+	for _, e := range []PDU{r.resolvedCreate, r.resolvedPowerLevels, r.resolvedJoinRules} {
+		if e != nil {
+			out = append(out, e)
+		}
+	}
+	for _, e := range r.resolvedThirdPartyInvites {
+		out = append(out, e)
+	}
+	for _, e := range r.resolvedMembers {
+		out = append(out, e)
+	}
+	for _, e := range r.resolvedOthers {
+		out = append(out, e)
+	}
+	return out
+}
